@@ -132,11 +132,11 @@ Next ==
           /\ J(ev.pool = leaked, <<"end: pool not empty", ev.pool, leaked>>)
           /\ UNCHANGED <<st, leaked>>
      ELSE IF ~Enabled(ev)
-     THEN J(FALSE, <<ev.op, "call not offered by the specification">>) /\ UNCHANGED <<st, leaked>>
+     THEN J(FALSE, <<ev.op, "not offered">>) /\ UNCHANGED <<st, leaked>>
      ELSE LET S == After(ev) IN
           /\ J(RuleOK(ev), <<ev.op, "in-place / release rule">>)
           /\ ObsOK(ev, S)
-          /\ JudgeKF(ev.pool = S.pool, l, <<ev.op, "pool", ev.pool, S.pool>>, KF_Pool(ev, S))
+          /\ JudgeKF(ev.pool = S.pool, l, "pool", KF_Pool(ev, S))
           /\ st' = S
           /\ leaked' = leaked + Leak(ev)
 
